@@ -31,7 +31,7 @@ Fixpoint reinsert (q : squeue) (s : src) : squeue :=
   | x :: r => if s_sid x =? s_sid s then s :: x :: r else x :: reinsert r s
   end.
 
-(* the behaviour before fix fcb8d4f: rotate the partially sent source to the very back *)
+(* the behaviour before fix fbd3cfd: rotate the partially sent source to the very back *)
 Definition rotate_back (q : squeue) (s : src) : squeue := q ++ [s].
 
 (* one sender step (_get_next_frame_to_send): the frame written and the queue afterwards *)
